@@ -177,7 +177,7 @@ func (edb *EventDb) updateAuthorizersTotalMint(mints []state.Mint) error {
 		totalMint []int64
 	)
 	for _, m := range mints {
-		ids = append(ids, m.ToClientID)
+		ids = append(ids, m.Minter)
 		amt, err := m.Amount.Int64()
 		if err != nil {
 			return err
@@ -225,5 +225,5 @@ func mergeAuthorizerBurnEvents() *eventsMergerImpl[state.Burn] {
 }
 
 func mergeAddBridgeMintEvents() *eventsMergerImpl[BridgeMint] {
-	return newEventsMerger[BridgeMint](TagAddBridgeMint, withUniqueEventOverwrite())
+	return newEventsMerger[BridgeMint](TagAddBridgeMint)
 }
